@@ -448,7 +448,7 @@ func cmdReplay(args []string) int {
 	if len(args) < 1 {
 		usage()
 	}
-	if b, err := os.ReadFile(filepath.Join(args[0], "inputs.json")); err == nil && strings.Contains(string(b), "\"kind\": \"rego-verdict\"") {
+	if b, err := os.ReadFile(filepath.Join(args[0], "inputs.json")); err == nil && strings.Contains(string(b), "\"kind\": \"rego-") {
 		return replayRego(args[0])
 	}
 	ok, out := nativeReplay(args[0], "")
@@ -522,11 +522,19 @@ func cmdSelftest(args []string) int { return 0 }
 // entry point built from /repo's working tree and compares with the recorded reference verdict.
 func replayRego(dir string) int {
 	var in struct {
+		Kind     string   `json:"kind"`
+		Label    string   `json:"label"`
 		Expected []string `json:"expected"`
 		Program  string   `json:"program"`
+		Detail   string   `json:"detail"`
+		Replay   struct {
+			ExpectedLocations map[string]any `json:"expected_locations"`
+		} `json:"replay_data"`
 	}
 	b, _ := os.ReadFile(filepath.Join(dir, "inputs.json"))
-	json.Unmarshal(b, &in)
+	dec := json.NewDecoder(strings.NewReader(string(b)))
+	dec.UseNumber()
+	dec.Decode(&in)
 	prof, _ := os.ReadFile(filepath.Join(dir, "profile.yaml"))
 	data, _ := os.ReadFile(filepath.Join(dir, "data.jsonld"))
 	work := filepath.Join(verifDir(), ".work", fmt.Sprintf("replay-%d", os.Getpid()))
@@ -541,6 +549,28 @@ func replayRego(dir string) int {
 	if err != nil || outs[0].Error != "" {
 		fmt.Println("validation failed:", err, outs[0].Error)
 		return 2
+	}
+	if in.Kind == "rego-shape" {
+		var names []string
+		for _, part := range strings.Split(in.Program, "; ") {
+			if i := strings.Index(part, "["); i > 0 {
+				names = append(names, part[:i])
+			}
+		}
+		problems := regosym.ReplayShapeProblems(outs[0].Report, names, in.Replay.ExpectedLocations, strings.HasPrefix(in.Label, "C12."))
+		fmt.Printf("program:  %s\nrecorded: %s\nproblems in the real report now: %v\n", in.Program, in.Detail, problems)
+		for _, pr := range problems {
+			if strings.HasPrefix(pr, strings.SplitN(in.Label, ".", 2)[0]) {
+				fmt.Println("REPRODUCED")
+				return 1
+			}
+		}
+		fmt.Println("NOT REPRODUCED")
+		return 0
+	}
+	if in.Kind == "rego-path" {
+		fmt.Printf("program:  %s\nrecorded: %s\n(re-run `verif check C02` to re-evaluate the generated path rule with the real OPA)\n", in.Program, in.Detail)
+		return 1
 	}
 	actual, conforms, err := regosym.RealResults(outs[0].Report)
 	if err != nil {
